@@ -299,7 +299,7 @@ theorem delta_empty_imp_equal_partial (P : Params) (S T : Tree) (dice : Id → I
       ∀ p ∈ (diffTrees P S T dice pre true).matching,
         S.nel p.1 = T.nel p.2 ∧
         (S.updatable p.1 = true → S.eqc p.1 = T.eqc p.2) ∧
-        (P.cmpIdents = true → S.eqc p.1 = T.eqc p.2 ∨ S.idk p.1 = T.idk p.2) ∧
+        (P.cmpIdents = true → P.identsAsDict = false → S.eqc p.1 = T.eqc p.2 ∨ S.idk p.1 = T.idk p.2) ∧
         movesOf S T M.all M.unmatchedS p.1 p.2 = [] := by
   intro M
   have hA := delta_empty_layerA (envOf P S T dice) M (by simpa [diffTrees] using h)
@@ -314,12 +314,12 @@ theorem delta_empty_imp_equal_partial (P : Params) (S T : Tree) (dice : Id → I
     refine ⟨by simpa using hnel, ?_, ?_, hm⟩
     · intro hup
       simpa [hup, identical] using hc
-    · intro hci
+    · intro hci hdict
       by_cases he : S.eqc p.1 = T.eqc p.2
       · exact Or.inl he
       · right
         have hni : identical S T p.1 p.2 = false := by simp [identical, he]
-        simp [hci, hni] at hid
+        simp [hci, hni, identsEq, hdict] at hid
         exact hid
   · rw [if_neg hc] at hu; cases hu
 
@@ -336,7 +336,7 @@ def witS : Tree where
   updatable := fun i => i == 2
   nel := fun _ => 0
   eqc := fun i => i
-  idk := fun i => if i == 1 then 5 else 0
+  akey := fun _ => 0
   txt := fun i => i
   lay := fun _ => 0
 
@@ -351,11 +351,11 @@ def witT : Tree where
   updatable := fun i => i == 12
   nel := fun _ => 0
   eqc := fun i => if i == 12 then 2 else i + 100
-  idk := fun i => if i == 11 then 6 else 0
+  akey := fun _ => 0
   txt := fun i => i
   lay := fun _ => 0
 
-def witP (fix : Bool) : Params := ⟨1, (3, 5), (4, 5), (2, 5), 4, fix, false⟩
+def witP (fix : Bool) : Params := ⟨1, (3, 5), (4, 5), (2, 5), 4, fix, false, false⟩
 def witDice : Id → Id → Nat := fun _ _ => 2
 
 /-- **`delta_empty_imp_equal` is false for the algorithm as it stands**: the delta is empty, the roots are not equal.
@@ -403,7 +403,7 @@ def caseS : Tree where
   updatable := fun i => i == 2
   nel := fun i => i
   eqc := fun i => i
-  idk := fun _ => 0
+  akey := fun _ => 0
   txt := fun i => i
   lay := fun _ => 0
 
@@ -418,7 +418,7 @@ def caseT : Tree where
   updatable := fun i => i == 12
   nel := fun i => if i == 11 then 77 else i - 10
   eqc := fun i => i - 10
-  idk := fun _ => 0
+  akey := fun _ => 0
   txt := fun i => if i == 11 || i == 10 then i + 70 else i - 10
   lay := fun _ => 0
 
@@ -441,7 +441,7 @@ def witCopy : Tree where
   updatable := fun i => i == 12
   nel := fun _ => 0
   eqc := fun i => i - 10
-  idk := fun i => if i == 11 then 5 else 0
+  akey := fun _ => 0
   txt := fun i => i - 10
   lay := fun _ => 0
 
@@ -469,7 +469,7 @@ example : IsCopy witS witCopy (· + 10) where
     compares argument keys, and without `hlay` the statement is false — `delta_empty_imp_equal_argkey_counterexample`
     (`x IN (y)` vs `x IN y`). -/
 theorem delta_empty_imp_equal (P : Params) (S T : Tree) (dice : Id → Id → Nat) (pre : List (Id × Id))
-    (hci : P.cmpIdents = true) (hwS : TreeWF S) (hwT : TreeWF T) (hrS : S.root ∈ S.index)
+    (hci : P.cmpIdents = true) (hdict : P.identsAsDict = false) (hwS : TreeWF S) (hwT : TreeWF T) (hrS : S.root ∈ S.index)
     (hp : PreOk (envOf P S T dice) pre) (hpty : ∀ p ∈ pre, S.ty p.1 = T.ty p.2)
     (hty : ∀ s t, S.ty s = T.ty t → S.cls s = T.cls t) (hcg : EqcCongr S T)
     (h : (diffTrees P S T dice pre true).edits = [])
@@ -496,7 +496,7 @@ theorem delta_empty_imp_equal (P : Params) (S T : Tree) (dice : Id → Id → Na
     (fun p hp' => hty _ _ (by simpa [envOf] using hsame p hp'))
     (fun p hp' => (hpairs p hp').1)
     (fun p hp' => (hpairs p hp').2.1)
-    (fun p hp' => (hpairs p hp').2.2.1 hci)
+    (fun p hp' => (hpairs p hp').2.2.1 hci hdict)
     hlay
     (fun p hp' => by have := (hpairs p hp').2.2.2; rwa [hu1] at this)
     hcg
@@ -539,7 +539,7 @@ def akS : Tree where
   updatable := fun i => i == 2 || i == 3
   nel := fun _ => 0
   eqc := fun i => i
-  idk := fun _ => 0
+  akey := fun _ => 0
   txt := fun i => i
   lay := fun _ => 0
 
@@ -554,7 +554,7 @@ def akT : Tree where
   updatable := fun i => i == 12 || i == 13
   nel := fun _ => 0
   eqc := fun i => if i == 12 || i == 13 then i - 10 else i + 100
-  idk := fun _ => 0
+  akey := fun _ => 0
   txt := fun i => i - 10
   lay := fun i => if i == 11 then 9 else 0
 
@@ -699,7 +699,7 @@ def phTree (off : Nat) (linked : Bool) : Tree where
   updatable := fun i => i == off + 3
   nel := fun i => i - off
   eqc := fun i => i - off
-  idk := fun _ => 0
+  akey := fun _ => 0
   txt := fun i => i - off
   lay := fun _ => 0
 
@@ -739,6 +739,163 @@ theorem not_value_variant_witness :
     sameUnder (notValuePolicy SqlglotModel.Generated.C20.leafPolicy.eqIgnores).diffSkips .emptyStr .false_ = true ∧
     sameUnder (notValuePolicy SqlglotModel.Generated.C20.leafPolicy.eqIgnores).eqIgnores .emptyStr .false_ = false := by
   decide +kernel
+
+/-! ### the Keep-vs-Update decision and Move detection, inside the model -/
+
+/-- **`matched_pair_keep_iff_locally_equal`.**  For a matched pair that is not (updatable and changed), the script emits
+    `Keep` exactly when the non-expression leaves agree AND (the nodes are `==` or) the ignored leaves — the ordered list of
+    (arg key, Identifier) children modelled by `Tree.idk` — agree as LISTS; otherwise it emits `Update`.  With the partition
+    theorems (every node is in exactly one kept/updated pair or removed/inserted) this is what makes an empty delta imply
+    equal trees for all trees (`delta_empty_imp_equal`). -/
+theorem matched_pair_keep_iff_locally_equal (P : Params) (S T : Tree) (dice : Id → Id → Nat) (M : Matching) (s t : Id)
+    (hci : P.cmpIdents = true) (hdict : P.identsAsDict = false)
+    (hnu : S.updatable s = false ∨ S.eqc s = T.eqc t) :
+    (Edit.keep s t ∈ pairEdits (envOf P S T dice) M (s, t) ↔
+      (S.nel s = T.nel t ∧ (S.eqc s = T.eqc t ∨ S.idk s = T.idk t))) ∧
+    (Edit.update s t ∈ pairEdits (envOf P S T dice) M (s, t) ↔
+      ¬(S.nel s = T.nel t ∧ (S.eqc s = T.eqc t ∨ S.idk s = T.idk t))) := by
+  have hc : (!S.updatable s || identical S T s t) = true := by
+    rcases hnu with h | h
+    · simp [h]
+    · simp [identical, h]
+  have hmv : ∀ e ∈ ((envOf P S T dice).moves M.all M.unmatchedS s t).map moveToEdit, e ≠ Edit.keep s t ∧ e ≠ Edit.update s t := by
+    intro e he
+    obtain ⟨m, _, rfl⟩ := List.mem_map.mp he
+    obtain ⟨a, b⟩ := m
+    cases b <;> simp [moveToEdit]
+  have hup : (envOf P S T dice).isUpdate s t = true ↔ ¬(S.nel s = T.nel t ∧ (S.eqc s = T.eqc t ∨ S.idk s = T.idk t)) := by
+    show isUpdateOf P S T s t = true ↔ _
+    unfold isUpdateOf
+    rw [if_pos hc]
+    simp only [hci, identsEq, hdict, identical]
+    by_cases h1 : S.nel s = T.nel t <;> by_cases h2 : S.eqc s = T.eqc t <;> by_cases h3 : S.idk s = T.idk t <;>
+      simp [h1, h2, h3]
+  constructor
+  · simp only [pairEdits, List.mem_append, List.mem_singleton]
+    constructor
+    · rintro (h | h)
+      · exact absurd rfl (hmv _ h).1
+      · by_cases hu : (envOf P S T dice).isUpdate s t = true
+        · simp [hu] at h
+        · exact Classical.not_not.mp (fun hn => hu (hup.mpr hn))
+    · intro h
+      right
+      have : ¬ (envOf P S T dice).isUpdate s t = true := fun hu => (hup.mp hu) h
+      simp [this]
+  · simp only [pairEdits, List.mem_append, List.mem_singleton]
+    constructor
+    · rintro (h | h)
+      · exact absurd rfl (hmv _ h).2
+      · by_cases hu : (envOf P S T dice).isUpdate s t = true
+        · exact hup.mp hu
+        · simp [hu] at h
+    · intro h
+      right
+      simp [hup.mpr h]
+
+/-- an updatable pair that is not `==` is always an `Update` -/
+theorem updatable_changed_pair_is_update (P : Params) (S T : Tree) (dice : Id → Id → Nat) (M : Matching) (s t : Id)
+    (hu : S.updatable s = true) (hne : S.eqc s ≠ T.eqc t) :
+    pairEdits (envOf P S T dice) M (s, t) = [Edit.update s t] := by
+  have h1 : movesOf S T M.all M.unmatchedS s t = [] := by simp [movesOf, hu, identical, hne]
+  have h2 : isUpdateOf P S T s t = true := by simp [isUpdateOf, hu, identical, hne]
+  simp [pairEdits, envOf, h1, h2]
+
+/-- **what the code guarantees for EVERY class** (`…_partial`): a difference of a matched, non-`==` pair that shows in its
+    non-expression leaves or in its Identifier children surfaces as `Update` ON THAT PAIR — whether or not the class is
+    in `UPDATABLE_EXPRESSION_TYPES` (updatable classes get it unconditionally).  Hence no class needs an updatable ancestor
+    for such a difference.  EXCLUDED (not guaranteed by the code): differences confined to the argument-key layout
+    (`delta_empty_imp_equal_argkey_counterexample`), and the ignored classes themselves (Identifier nodes are never
+    matched: their difference is exactly what the owner's `idk` comparison surfaces). -/
+theorem local_difference_surfaces_partial (P : Params) (S T : Tree) (dice : Id → Id → Nat) (M : Matching) (s t : Id)
+    (hci : P.cmpIdents = true) (hdict : P.identsAsDict = false) (hne : S.eqc s ≠ T.eqc t)
+    (hdiff : S.nel s ≠ T.nel t ∨ S.idk s ≠ T.idk t) :
+    Edit.update s t ∈ pairEdits (envOf P S T dice) M (s, t) := by
+  cases hu : S.updatable s with
+  | true => rw [updatable_changed_pair_is_update P S T dice M s t hu hne]; simp
+  | false =>
+    refine ((matched_pair_keep_iff_locally_equal P S T dice M s t hci hdict (Or.inl hu)).2).mpr ?_
+    rintro ⟨h1, h2 | h2⟩
+    · exact hne h2
+    · rcases hdiff with h | h
+      · exact h h1
+      · exact h h2
+
+/-- **Move detection for `==` pairs**: a matched pair of identical nodes gets `Move(s, t)` exactly when their parents are
+    not matched to each other (one has no parent and the other has, or both have and the pair of parents is not in the
+    matching); nothing else is emitted as a Move for it.  Tied to the real code by the edit-multiset correspondence. -/
+theorem move_iff_parents_not_matched (S T : Tree) (m : List (Id × Id)) (u : List Id) (s t : Id)
+    (hN : (fsts m).Nodup) (hid : S.eqc s = T.eqc t) :
+    (movesOf S T m u s t = [(s, some t)] ∨ movesOf S T m u s t = []) ∧
+    (movesOf S T m u s t = [(s, some t)] ↔
+      match S.parent s, T.parent t with
+      | some ps, some pt => (ps, pt) ∉ m
+      | none, none => False
+      | _, _ => True) := by
+  have hidb : identical S T s t = true := by simp [identical, hid]
+  have hform : movesOf S T m u s t = if parentMoved S T m s t then [(s, some t)] else [] := by
+    simp [movesOf, hidb]
+  constructor
+  · rw [hform]; split <;> simp
+  · rw [hform]
+    cases hs : S.parent s with
+    | none =>
+      cases ht : T.parent t with
+      | none => simp [parentMoved, hs, ht]
+      | some pt => simp [parentMoved, hs, ht]
+    | some ps =>
+      cases ht : T.parent t with
+      | none => simp [parentMoved, hs, ht]
+      | some pt =>
+        simp only [parentMoved, hs, ht]
+        by_cases hl : lookup m ps = some pt
+        · have := lookup_mem hl
+          simp [hl, this]
+        · have hnm : (ps, pt) ∉ m := fun hm => hl (lookup_of_mem hN hm)
+          simp [hl, hnm]
+
+/-- `USING (a, b)` vs `USING (c, b)`: Select(0) → Join-like node(1) whose only children are two Identifiers under the SAME
+    list argument; the first identifier differs -/
+def usingTree (off first : Nat) : Tree where
+  root := off
+  size := 5
+  cls := fun i => i - off
+  ty := fun i => i - off
+  parent := fun i => if i == off + 1 then some off else if i == off + 2 || i == off + 3 then some (off + 1) else none
+  kids := fun i => if i == off then [off + 1] else if i == off + 1 then [off + 2, off + 3] else []
+  ignored := fun i => i == off + 2 || i == off + 3
+  updatable := fun _ => false
+  nel := fun _ => 0
+  eqc := fun i => if i == off + 2 then first else if i == off + 3 then 21 else if i == off + 1 then 50 + first else 80 + first
+  akey := fun i => if i == off + 2 || i == off + 3 then 7 else 0
+  txt := fun i => i - off
+  lay := fun _ => 0
+
+/-- **why the ignored leaves must be compared as a list**: keyed by arg key (a dict) the two identifiers of one list
+    argument collapse to the last one, `USING (a, b)` vs `USING (c, b)` ends in Keep and the delta of two unequal trees is
+    empty; compared as lists the pair is an Update -/
+theorem ident_dict_collapse_witness :
+    (usingTree 0 20).idk 1 = [(7, 20), (7, 21)] ∧ (usingTree 10 22).idk 11 = [(7, 22), (7, 21)] ∧
+    (usingTree 0 20).eqc 0 ≠ (usingTree 10 22).eqc 10 ∧
+    (diffTrees ⟨1, (3, 5), (4, 5), (2, 5), 4, true, false, true⟩ (usingTree 0 20) (usingTree 10 22) witDice [] true).edits = [] ∧
+    (diffTrees ⟨1, (3, 5), (4, 5), (2, 5), 4, true, false, false⟩ (usingTree 0 20) (usingTree 10 22) witDice [] true).edits
+      = [.update 1 11] := by
+  decide +kernel
+
+/-- **decision over the live class tables** (every Expression subclass, `isinstance` semantics, decided completely): no
+    class is both updatable and ignored, some class is ignored, some is updatable.  Together with
+    `local_difference_surfaces_partial` (which holds for every class, updatable or not) and `updatable_changed_pair_is_update`
+    this is the whole interplay: an updatable class surfaces ANY change of a matched pair as Update; every other
+    non-ignored class surfaces scalar-argument and Identifier-child changes as Update on the pair itself; an ignored class
+    is never diffed and is covered by its owner's `idk` comparison. -/
+theorem class_tables_decision :
+    (SqlglotModel.Generated.C20.classTable.all fun e => !(e.1 && e.2)) = true ∧
+    (SqlglotModel.Generated.C20.classTable.any fun e => e.2) = true ∧
+    (SqlglotModel.Generated.C20.classTable.any fun e => e.1) = true := by
+  decide +kernel
+
+/-- the source builds the ignored leaves as an ordered list (pinned by ast on this run) -/
+theorem generated_ignored_leaves_are_lists : SqlglotModel.Generated.C20.ignoredLeavesAsDict = false := by decide +kernel
 
 /-- constants re-extracted from sqlglot/diff.py on this run satisfy what the copy theorems need:
     the high leaf-similarity threshold and the default `f` are at most 1, and Identifier is the only ignored type -/
